@@ -281,12 +281,12 @@ def pyAllIn (needles hay : PyVal) : Res Bool :=
   | .error e => .error e
   | .ok ns => allInList hay ns
 
-def pyLen : PyVal → Res Nat
-  | .str s => .ok s.length
-  | .list xs => .ok xs.length
-  | .tuple xs => .ok xs.length
-  | .set xs => .ok xs.length
-  | .dict ks _ => .ok ks.length
+def pyLen : PyVal → Res Int
+  | .str s => .ok (Int.ofNat s.length)
+  | .list xs => .ok (Int.ofNat xs.length)
+  | .tuple xs => .ok (Int.ofNat xs.length)
+  | .set xs => .ok (Int.ofNat xs.length)
+  | .dict ks _ => .ok (Int.ofNat ks.length)
   | _ => .error .raised
 
 def truthy : PyVal → Bool
@@ -365,14 +365,15 @@ def eqTest (ex : Bool) (d : Option (Int × Nat)) : PyVal → PyVal → Res Bool
         if pyEq a e then .ok true else if xs.length != ys.length then .ok false else eqSeq ex d xs ys
       | .set xs, .set ys =>
         if pyEq a e then .ok true
-        else if xs.length != ys.length then .ok false else eqAllContained ex d xs ys
-      | .dict ks vs, .dict ks2 vs2 =>
-        if pyEq a e then .ok true
-        else if ks2.length != ks.length then .ok false
-        else match eqAllContained ex d ks2 ks with
+        else if xs.length != ys.length then .ok false
+        else match eqAllContained ex d xs ys with
           | .error err => .error err
           | .ok false => .ok false
-          | .ok true => eqDictVals ex d ks2 vs2 ks vs
+          | .ok true => eqAllContained ex d ys xs
+      | .dict ks vs, .dict ks2 vs2 =>
+        if pyEq a e then .ok true
+        else if !(ks2.length == ks.length && pyAllMem ks2 ks) then .ok false   -- the key sets differ
+        else eqDictVals ex d ks2 vs2 ks vs
       | _, _ => .ok (pyEq a e)
 termination_by a e => sizeOf a + sizeOf e
 /-- the loop of `_are_sequences_equal` (`zip`, in order, stop at the first `False`). -/
@@ -384,7 +385,7 @@ def eqSeq (ex : Bool) (d : Option (Int × Nat)) : List PyVal → List PyVal → 
     | .ok true => eqSeq ex d xs ys
   | _, _ => .ok true
 termination_by a b => sizeOf a + sizeOf b
-/-- `_are_sets_equal` after the length test: every `x` of the first is `_set_contains`-ed by the second. -/
+/-- one direction of `_are_sets_equal`: every `x` of the first is `_set_contains`-ed by the second. -/
 def eqAllContained (ex : Bool) (d : Option (Int × Nat)) : List PyVal → List PyVal → Res Bool
   | [], _ => .ok true
   | x :: xs, ys =>
